@@ -76,7 +76,7 @@ def register(reg):
     reg.overrides["std:os.name"] = lambda interp: VStr("posix")
     reg.overrides["std:os.path.altsep"] = lambda interp: NONE
     reg.contract(
-        "werkzeug/utils.py:secure_filename", prop=P, params={"filename": "str"}, returns="str",
+        "werkzeug/utils.py:secure_filename", prop=P, replay="pure", params={"filename": "str"}, returns="str",
         ensures=["re_in(result, '[A-Za-z0-9_.-]*')",
                  "not result.startswith('.') and not result.startswith('_')",
                  "not result.endswith('.') and not result.endswith('_')"],
